@@ -411,7 +411,7 @@ func hooksC13() Hooks {
 			}
 		}
 		// Size(m) = bytes a message adds to a head segment of NewSegmentsVersion
-		if op.K == "pub" && len(op.Msgs) > 0 {
+		if op.K == "pub" && len(op.Msgs) > 0 && !r.pubRefused() {
 			before, _ := r.Ctx["layout"].([]segInfo)
 			after := segLayout(r.Dir)
 			nv := newVer(r.OOpts)
